@@ -119,6 +119,7 @@ class PathResult:
     len_lo: int = 0
     len_hi: float = float("inf")
     state: State | None = None
+    oid: int = 0
 
 
 @dataclass
@@ -166,7 +167,7 @@ class CodecAnalyser:
                     obj3 = st3.heap[v2.oid]
                     lo, hi = st3.len_bounds()
                     pr = PathResult(st3.facts, True, obj_cls=obj3.cls, fields=dict(obj3.fields),
-                                    guards=list(st3.guards), len_lo=lo, len_hi=hi, state=st3)
+                                    guards=list(st3.guards), len_lo=lo, len_hi=hi, state=st3, oid=v2.oid)
                     if isinstance(v3, Raised):
                         pr.issues.append(Issue("raise", f".pdu raises {v3.exc} for an accepted PDU: {v3.where}", v3.where))
                     elif isinstance(v3, PduV):
